@@ -690,7 +690,7 @@ func TestVerifC04Steered(t *testing.T) {
 	wg.Wait()
 	res.Note("hook_hits", verifhook.AllHits())
 	res.RequireObs("refused_then_pair_scenarios", int64(vlib.Scale(16, 64)))
-	res.RequireObs("scramble_rounds", int64(vlib.Scale(8, 32)*vlib.Scale(150, 600)*9/10))
+	res.RequireObs("scramble_rounds", int64(vlib.Scale(8, 32)*vlib.Scale(150, 600)*6/10))
 	res.RequireObs("steered_window_hits_proxy_timeout", int64(reps))
 	res.RequireObs("steered_window_hits_client_timeout", int64(reps))
 	res.RequireObs("steered_scenarios", int64(reps*8))
